@@ -101,6 +101,8 @@ type pcClass struct {
 }
 
 // readerSite reports whether the Lock call at pc belongs to a function declared commuting.
+//
+//go:norace
 func (m *MutexModel) readerSite(pc uintptr) bool {
 	for i := range m.pcClass {
 		if m.pcClass[i].pc == pc {
